@@ -61,13 +61,13 @@ Lemma deep_line : forall f t, (depth t <= f)%nat -> wf_b t = true -> exists l, I
 Proof.
   induction f as [|f IH].
   - intros t Hd Hw.
-    destruct t as [c body more|ch n content|ts|mk pad ts|mk pad ts next|lv hc hb|rc rn|e0 epre ech edbl ew epost]; [| |cbn [depth] in Hd; lia|cbn [depth] in Hd; lia|cbn [depth] in Hd; lia| | |].
+    destruct t as [c body more|ch n content|ts|mk pad ts|mk pad ts bl next|lv hc hb|rc rn|e0 epre ech edbl ew epost]; [| |cbn [depth] in Hd; lia|cbn [depth] in Hd; lia|cbn [depth] in Hd; lia| | |].
     + exists (SLine 0 c body). split; [left; reflexivity|cbn [depth weight]; lia].
     + exists (SLine 0 ch (repeat ch (n - 1))). split; [left; reflexivity|cbn [depth weight]; lia].
     + eexists. split; [left; reflexivity|cbn [depth weight]; lia].
     + eexists. split; [left; reflexivity|cbn [depth weight]; lia].
     + eexists. split; [left; reflexivity|cbn [depth weight]; lia].
-  - intros t. induction t as [c body more|ch n content|ts|mk pad ts|mk pad ts next IHn|lv hc hb|rc rn|e0 epre ech edbl ew epost]; intros Hd Hw.
+  - intros t. induction t as [c body more|ch n content|ts|mk pad ts|mk pad ts bl next IHn|lv hc hb|rc rn|e0 epre ech edbl ew epost]; intros Hd Hw.
     + exists (SLine 0 c body). split; [left; reflexivity|cbn [depth weight]; lia].
     + exists (SLine 0 ch (repeat ch (n - 1))). split; [left; reflexivity|cbn [depth weight]; lia].
     + cbn [wf_b] in Hw. repeat rewrite andb_true_iff in Hw. destruct Hw as [[Hs Hall] Hg].
@@ -83,7 +83,7 @@ Proof.
       exists l. split; [exact Hl|cbn [depth]; exact Wl].
     + cbn [wf_b] in Hw. repeat rewrite andb_true_iff in Hw. destruct Hw as [[[Hw _] _] Hwn]. cbn [depth] in Hd |- *.
       destruct (Nat.max_spec (S (fold_right (fun t m => Nat.max (depth t) m) 0%nat ts)) (depth next)) as [[Hlt ->]|[Hge ->]].
-      * destruct (IHn ltac:(lia) Hwn) as (l & Hl & Wl). exists l. split; [|exact Wl]. cbn [spell]. apply in_or_app. right. right. exact Hl.
+      * destruct (IHn ltac:(lia) Hwn) as (l & Hl & Wl). exists l. split; [|exact Wl]. cbn [spell]. apply in_or_app. right. apply in_or_app. right. exact Hl.
       * assert (Hw' : marker_okb mk && Nat.leb 1 pad && Nat.leb pad 4 && seq_ok_b ts && forallb wf_b ts && good_b (join_blank (map spell ts)) &&
                       negb (thematic_start (item_first_line mk pad (join_blank (map spell ts)))) = true) by (repeat rewrite andb_true_iff; exact Hw).
         destruct (item_deep_line f IH mk pad ts ltac:(lia) Hw') as (l & Hl & Wl).
